@@ -124,6 +124,7 @@ pub fn run(req: &RunRequest) -> Value {
             rf: (0..dcs).map(|_| tape::choose("c12:rf", 4) as usize).collect(),
         };
         let mut cluster = Cluster::new("c12");
+        let mut zero_token_nodes = 0u64;
         for i in 0..plan.nodes {
             let dc = i % plan.dcs;
             let rack = (i / plan.dcs) % 2;
@@ -135,6 +136,15 @@ pub fn run(req: &RunRequest) -> Value {
                     (hi << 44) | (lo << 24) | (i as i64 + 1)
                 })
                 .collect();
+            // 1 in 6 layouts: the last node is a zero-token node (it owns no data and is a
+            // replica of nothing; ScyllaDB reports its token set as null).
+            let tokens = if i > 0 && i + 1 == plan.nodes && tape::chance("c12:zero_token_node", 1, 6) {
+                zero_token_nodes += 1;
+                let _ = zero_token_nodes;
+                Vec::new()
+            } else {
+                tokens
+            };
             let n = cluster.add_node(&format!("dc{dc}"), &format!("r{rack}"), plan.shards, tokens);
             cluster.nodes[n].msb_ignore = plan.msb_ignore;
             cluster.nodes[n].shard_aware_port_open = true;
